@@ -5,6 +5,8 @@ import JubakoModel.Model.Refs
 import JubakoModel.Lemmas.Codec
 import JubakoModel.Lemmas.Refs
 import JubakoModel.Lemmas.MultiStore
+import JubakoModel.Lemmas.FuncsStats
+import JubakoModel.Lemmas.FuncsEntry
 
 namespace Jubako
 
@@ -165,6 +167,26 @@ example :
     let stores := [StoreIn.mk 1 [], StoreIn.mk 2 [[1, 0]]]
     let s := (MSt.init stores).run stores (finalizeRepaired stores.length)
     (s.sizedAt.head?.map (fun p => p.2 1 0)) = some 1 := by
+  decide
+
+/-- **A deferred value is read when the source sizes and when it serialises, and then treated exactly like a plain
+    value**: in `Property::process` (statistics) and in the per-key body of `Properties::serialize_entry`, both
+    translated on every run, a `Word` — given as the value `value.get()` returns at that moment — is handled
+    as the plain integer of that value, for every property kind.  This is the step `EntryRefIn.resolve` of the
+    writer model (a reference replaced by the value of its target's cell) rests on. -/
+theorem c15_words_follow_source :
+    (∀ k w v, Generated.entryPropertyWrites k (.unsignedWord w) v = Generated.entryPropertyWrites k (.unsigned w) v) ∧
+    (∀ k w v, Generated.entryPropertyWrites k (.signedWord w) v = Generated.entryPropertyWrites k (.signed w) v) ∧
+    (∀ p w, Generated.schemaPropertyProcess p (.unsignedWord w) = Generated.schemaPropertyProcess p (.unsigned w)) ∧
+    (∀ p w, Generated.schemaPropertyProcess p (.signedWord w) = Generated.schemaPropertyProcess p (.signed w)) := by
+  refine ⟨?_, ?_, ?_, ?_⟩
+  · intro k w v; cases k <;> rfl
+  · intro k w v; cases k <;> rfl
+  · intro p w; cases p <;> rfl
+  · intro p w; cases p <;> rfl
+
+/-- and a reference written under an unsigned property of width `sz` is the little-endian image of the cell -/
+example : (Generated.entryPropertyWrites (.unsignedInt 2 none [114]) (.unsignedWord 513) none).map writesBytes = some [1, 2] := by
   decide
 
 end Jubako
